@@ -20,7 +20,11 @@ func drawC08(rt *rapid.T) *Case {
 	g := gen.NewG(rt, gen.PathOpts{Funcs: true, NoAgg: true, FuncPct: 25, MinSteps: 2, RootOmit: false, ReuseFuncs: true})
 	p := g.Path()
 	d := g.Doc(p)
-	return &Case{Path: gen.Render(p, gen.Canon).Text, AST: p, Doc: d, UseNumber: rapid.Bool().Draw(rt, "usenumber"), Funcs: true}
+	c := &Case{Path: gen.Render(p, gen.Canon).Text, AST: p, Doc: d, UseNumber: rapid.Bool().Draw(rt, "usenumber"), Funcs: true}
+	if gen.Uniform(rt, "shared", 7) == 0 {
+		c.Ints = []int{1 + int(rapid.Uint32().Draw(rt, "shareseed"))}
+	}
+	return c
 }
 
 // stepClean: no "$"-rooted operand and no aggregate anywhere inside the step.
@@ -47,12 +51,15 @@ func stepClean(s *gen.Step) bool {
 
 func retrieveSteps(steps []gen.Step, doc interface{}, st *Stats) ([]interface{}, error, string) {
 	text := gen.RenderSteps(steps).Text
-	cfg := BuildConfig(nil, true, false)
+	rec := &Recorder{}
+	cfg := BuildConfig(rec, true, false)
 	f, err := jsonpath.Parse(text, cfg)
 	if err != nil {
 		return nil, nil, fmt.Sprintf("generated path %q was rejected by Parse: %v", text, err)
 	}
 	st.Eval(1)
+	reenterDoc := gen.MustDecode(tinyDoc, false)
+	rec.Reenter = func() { _, _ = f(reenterDoc) } // "fre" re-enters this parsed function mid-evaluation
 	got, rerr := f(doc)
 	return got, rerr, ""
 }
@@ -77,6 +84,10 @@ func checkC08(c *Case, st *Stats) string {
 	docText := c.Doc.JSON()
 	Journal(c.Check, c.Path, docText, flagString(c))
 	doc := c.Document()
+	if len(c.Ints) > 0 {
+		doc = gen.ShareSubtrees(doc, uint64(c.Ints[0]))
+		st.Class("doc:shared-subtree")
+	}
 	steps := c.AST.Steps
 	for k := 1; k < len(steps); k++ {
 		if steps[k-1].Kind == gen.KFunc {
